@@ -1,3 +1,195 @@
 package main
 
-func extractRest11(l *loaded, genDir, jsonDir string) error { return nil }
+import (
+	"fmt"
+	"go/ast"
+	"go/constant"
+	"go/token"
+	"path/filepath"
+	"sort"
+	"strconv"
+	"strings"
+)
+
+// extractLexTables reads pkg/sql/tokenizer and pkg/models:
+//   - keywordTokenTypes, compoundKeywordStarts, compoundKeywordTypes (map literals, constants resolved)
+//   - the operator table of readPunctuation: every `models.Token{Type: C, Value: "<lit>"}` returned there
+//   - the numeric value of every models.TokenType constant
+func extractRest11(l *loaded, genDir, jsonDir string) error {
+	tp := l.pkgs["pkg/sql/tokenizer"]
+	mp := l.pkgs["pkg/models"]
+	if tp == nil || mp == nil {
+		return fmt.Errorf("tokenizer/models not loaded")
+	}
+	constInt := func(e ast.Expr) (int64, bool) {
+		if tv, ok := tp.TypesInfo.Types[e]; ok && tv.Value != nil && tv.Value.Kind() == constant.Int {
+			v, ok := constant.Int64Val(tv.Value)
+			return v, ok
+		}
+		return 0, false
+	}
+	type kv struct {
+		K string `json:"k"`
+		V int64  `json:"v"`
+	}
+	maps := map[string][]kv{}
+	var starts []string
+	var ops []kv
+	for _, f := range tp.Syntax {
+		for _, d := range f.Decls {
+			switch dd := d.(type) {
+			case *ast.GenDecl:
+				for _, sp := range dd.Specs {
+					vs, ok := sp.(*ast.ValueSpec)
+					if !ok {
+						continue
+					}
+					for i, n := range vs.Names {
+						if i >= len(vs.Values) {
+							continue
+						}
+						cl, ok := vs.Values[i].(*ast.CompositeLit)
+						if !ok {
+							continue
+						}
+						switch n.Name {
+						case "keywordTokenTypes", "compoundKeywordTypes":
+							for _, e := range cl.Elts {
+								kve := e.(*ast.KeyValueExpr)
+								k, _ := strconv.Unquote(kve.Key.(*ast.BasicLit).Value)
+								v, ok := constInt(kve.Value)
+								if !ok {
+									return fmt.Errorf("%s[%s]: value is not a constant", n.Name, k)
+								}
+								maps[n.Name] = append(maps[n.Name], kv{k, v})
+							}
+						case "compoundKeywordStarts":
+							for _, e := range cl.Elts {
+								kve := e.(*ast.KeyValueExpr)
+								k, _ := strconv.Unquote(kve.Key.(*ast.BasicLit).Value)
+								starts = append(starts, k)
+							}
+						}
+					}
+				}
+			case *ast.FuncDecl:
+				if dd.Name.Name != "readPunctuation" || dd.Body == nil {
+					continue
+				}
+				ast.Inspect(dd.Body, func(n ast.Node) bool {
+					cl, ok := n.(*ast.CompositeLit)
+					if !ok {
+						return true
+					}
+					sel, ok := cl.Type.(*ast.SelectorExpr)
+					if !ok || sel.Sel.Name != "Token" {
+						return true
+					}
+					var ty int64 = -1
+					val, hasVal := "", false
+					for _, e := range cl.Elts {
+						kve, ok := e.(*ast.KeyValueExpr)
+						if !ok {
+							continue
+						}
+						switch kve.Key.(*ast.Ident).Name {
+						case "Type":
+							if v, ok := constInt(kve.Value); ok {
+								ty = v
+							}
+						case "Value":
+							if bl, ok := kve.Value.(*ast.BasicLit); ok && bl.Kind == token.STRING {
+								val, _ = strconv.Unquote(bl.Value)
+								hasVal = true
+							}
+						}
+					}
+					if ty >= 0 && hasVal {
+						ops = append(ops, kv{val, ty})
+					}
+					return true
+				})
+			}
+		}
+	}
+	for k := range maps {
+		sort.Slice(maps[k], func(i, j int) bool { return maps[k][i].K < maps[k][j].K })
+	}
+	sort.Strings(starts)
+	sort.Slice(ops, func(i, j int) bool { return ops[i].K < ops[j].K })
+	// de-duplicate the operator table ("$" is returned from several places)
+	var ops2 []kv
+	for i, o := range ops {
+		if i > 0 && ops[i-1] == o {
+			continue
+		}
+		ops2 = append(ops2, o)
+	}
+	ops = ops2
+	// token type constants
+	var tts []kv
+	scope := mp.Types.Scope()
+	for _, name := range scope.Names() {
+		if !strings.HasPrefix(name, "TokenType") {
+			continue
+		}
+		obj := scope.Lookup(name)
+		c, ok := obj.(interface{ Val() constant.Value })
+		if !ok {
+			continue
+		}
+		if v, ok := constant.Int64Val(c.Val()); ok {
+			tts = append(tts, kv{name, v})
+		}
+	}
+	if err := writeJSON(jsonDir+"/lex_tables.json", map[string]any{"keywords": maps["keywordTokenTypes"], "compound_types": maps["compoundKeywordTypes"], "compound_starts": starts, "operators": ops, "token_types": tts}); err != nil {
+		return err
+	}
+	var b strings.Builder
+	b.WriteString(genHeader)
+	b.WriteString("namespace GoSQLXModel.Gen.Lex\n\n")
+	emitKV := func(name string, xs []kv, chunk int) {
+		// chunked to keep each literal small
+		var parts []string
+		for i := 0; i < len(xs); i += chunk {
+			j := i + chunk
+			if j > len(xs) {
+				j = len(xs)
+			}
+			pn := fmt.Sprintf("%s_%d", name, i/chunk)
+			fmt.Fprintf(&b, "def %s : List (String × Nat) := [", pn)
+			for k, e := range xs[i:j] {
+				if k > 0 {
+					b.WriteString(", ")
+				}
+				fmt.Fprintf(&b, "(%s, %d)", leanStr(e.K), e.V)
+			}
+			b.WriteString("]\n")
+			parts = append(parts, pn)
+		}
+		if len(parts) == 0 {
+			fmt.Fprintf(&b, "def %s : List (String × Nat) := []\n\n", name)
+			return
+		}
+		fmt.Fprintf(&b, "def %s : List (String × Nat) := %s\n\n", name, strings.Join(parts, " ++ "))
+	}
+	emitKV("keywordTypes", maps["keywordTokenTypes"], 60)
+	emitKV("compoundTypes", maps["compoundKeywordTypes"], 60)
+	fmt.Fprintf(&b, "def compoundStarts : List String := %s\n\n", leanStrList(starts))
+	b.WriteString("/-- every `models.Token{Type: c, Value: \"lit\"}` returned by readPunctuation -/\n")
+	emitKV("operators", ops, 60)
+	emitKV("tokenTypes", tts, 60)
+	for _, n := range []string{"EOF", "Identifier", "Number", "Placeholder", "String", "SingleQuotedString", "DoubleQuotedString",
+		"TripleSingleQuotedString", "TripleDoubleQuotedString", "DollarQuotedString", "Keyword"} {
+		for _, t := range tts {
+			if t.K == "TokenType"+n {
+				fmt.Fprintf(&b, "def tt%s : Nat := %d\n", n, t.V)
+			}
+		}
+	}
+	b.WriteString("\nend GoSQLXModel.Gen.Lex\n")
+	if _, err := writeIfChanged(filepath.Join(genDir, "LexTables.lean"), []byte(b.String())); err != nil {
+		return err
+	}
+	return extractRest12(l, genDir, jsonDir)
+}
